@@ -38,8 +38,9 @@ def main():
         meta = json.load(open(meta_p))
         wt = sys.argv[2] if len(sys.argv) > 2 else None
         if wt is None and os.path.exists(demo):
-            m = re.search(r"^\s*(?:R|T|WT|ROOT|REPO|G|GIVARO_TREE)=\"?([^\s\"]+)", open(demo).read(), re.M)
-            wt = m.group(1) if m else None
+            txt = open(demo).read()
+            m = re.search(r"^\s*(?:export\s+)?[A-Za-z_]+=\"?(\$\{[A-Za-z_]+:-)?(/tmp/seed[0-9]*_C[0-9]+)\b", txt, re.M) or re.search(r"(/tmp/seed[0-9]*_C[0-9]+)\b(?!_out)", txt)
+            wt = m.group(m.lastindex) if m else None
             if wt and wt.startswith("${"):
                 m = re.search(r":-([^}]+)\}", wt)
                 wt = m.group(1) if m else None
